@@ -65,7 +65,7 @@ Definition decode_rm_scn (l : list Z) : rm_scn :=
 Definition rm_fuel : nat := 400.
 
 Definition flush (s : rs) : rs * list (cmd ract) :=
-  (mkRs (r_pools s) (r_wait s) (r_res s) (r_slots s) (r_cblog s) [] (r_err s) (r_env s), rev (r_out s)).
+  (mkRs (r_pools s) (r_wait s) (r_res s) (r_slots s) (r_cblog s) [] (r_err s) (r_env s) (r_nreg s), map to_cmd (rev (r_out s))).
 
 Definition exec_rm (sc : rm_scn) (a : ract) (w : rs) (nw : Z) : rs * list (cmd ract) :=
   match a with
@@ -85,9 +85,9 @@ Definition enc_rm_event (e : event ract) : list Z :=
 
 Definition enc_rs (s : rs) : list Z :=
   [Z.of_nat (length (r_pools s))] ++ flat_map (fun p => [fst p; fst (snd p); snd (snd p)]) (r_pools s)
-  ++ [Z.of_nat (length (r_wait s))] ++ flat_map (fun w => Z.of_nat (snd w) :: enc_req (fst w)) (r_wait s)
+  ++ [Z.of_nat (length (r_wait s))] ++ flat_map (fun w => Z.of_nat (we_cb w) :: enc_req (we_req w)) (r_wait s)
   ++ [Z.of_nat (length (r_res s))] ++ flat_map enc_req (r_res s)
-  ++ [Z.of_nat (length (r_cblog s))] ++ flat_map (fun c => [Z.of_nat (fst (fst c)); snd c] ++ enc_req (snd (fst c))) (rev (r_cblog s)).
+  ++ [Z.of_nat (length (r_cblog s))] ++ flat_map (fun c => [Z.of_nat (ce_cb c); ce_time c] ++ enc_req (ce_req c)) (rev (r_cblog s)).
 
 Definition enc_data (d : Z * Z * list Z) : list Z :=
   let '(l, s, p) := d in [l; s; Z.of_nat (length p)] ++ p.
